@@ -475,6 +475,11 @@ impl Property for C20 {
         out
     }
 
+    /// the tool must print a result for every file: a library call that never returns (or kills the process) on the file's bytes is the tool's hang / crash too
+    fn crash_is_violation() -> bool {
+        true
+    }
+
     fn meta() -> Meta {
         Meta {
             level: "fault_enumeration",
